@@ -509,6 +509,66 @@ fn char_sweep(acc: &mut Acc) -> usize {
     n
 }
 
+/// (a3) E5 on the *structure* of the two framed bodies (the POST form and the chunk-signed upload): the body cut at every
+/// offset, every single byte deleted, every CR LF pair deleted, every line deleted and every line doubled - each with the
+/// Content-Length as sent originally and corrected to the new length.
+fn framed_body_mutants(acc: &mut Acc) -> usize {
+    let t0 = amz_date_to_epoch(DATE).unwrap();
+    let cfgs: Vec<SvcCfg> = configs(true).into_iter().filter(|c| c.host == HostMode::None && c.route == RouteMode::None && c.access == AccessMode::None).collect();
+    let mut cases: Vec<(String, R)> = Vec::new();
+    for (bname, base) in bases().into_iter().filter(|(n, _)| *n == "post-form" || *n == "v4-header-chunk-signed-put") {
+        let BodyKind::Bytes(body) = &base.body else { continue };
+        let mut variants: Vec<(String, Vec<u8>)> = Vec::new();
+        for off in 0..body.len() {
+            variants.push((format!("cut@{off}"), body[..off].to_vec()));
+            let mut d = body.clone();
+            d.remove(off);
+            variants.push((format!("byte-deleted@{off}"), d));
+            if body[off..].starts_with(b"\r\n") {
+                let mut d = body.clone();
+                d.drain(off..off + 2);
+                variants.push((format!("crlf-deleted@{off}"), d));
+            }
+        }
+        // lines (CR LF terminated)
+        let mut start = 0;
+        while start < body.len() {
+            let end = body[start..].windows(2).position(|w| w == b"\r\n").map_or(body.len(), |p| start + p + 2);
+            let mut d = body.clone();
+            d.drain(start..end);
+            variants.push((format!("line-deleted@{start}"), d));
+            let mut d = body.clone();
+            let line: Vec<u8> = body[start..end].to_vec();
+            d.splice(start..start, line);
+            variants.push((format!("line-doubled@{start}"), d));
+            start = end;
+        }
+        for (label, nb) in variants {
+            for fix_len in [false, true] {
+                let mut r = base.clone();
+                if fix_len {
+                    r.req.set_header("content-length", &nb.len().to_string());
+                }
+                r.body = BodyKind::Bytes(nb.clone());
+                cases.push((format!("{bname}/{label}/{}", if fix_len { "length-corrected" } else { "length-as-sent" }), r));
+            }
+        }
+    }
+    let n = cases.len();
+    par_items(acc, &cases, |a, ci, (label, r)| {
+        for cfg in &cfgs {
+            let cfg_name = format!("auth={}", cfg.keys.is_some());
+            let id = || format!("framed-body/[{cfg_name}]/{label}");
+            if !a.selected(&id) {
+                continue;
+            }
+            evaluate(a, &id, r, cfg, &["framed-body"], ci, ci, t0);
+        }
+        s3s::verif_hooks::set_now(None);
+    });
+    n
+}
+
 fn totality(acc: &mut Acc, tier: Tier) -> usize {
     let bs = bases();
     let ax = axes();
@@ -783,13 +843,14 @@ pub fn run(ctx: &Ctx) -> (Acc, Report) {
     let mut acc = ctx.acc();
     let n_single = totality(&mut acc, ctx.tier);
     let n_chars = char_sweep(&mut acc);
+    let n_framed = framed_body_mutants(&mut acc);
     rendering(&mut acc);
     let k = ctx.tier.pick(2, 3);
     let rep = Report {
         level: "exploration",
-        rule: format!("(a) 19 valid base requests (anonymous GET/HEAD/list, V4 header with unsigned / signed / chunk-signed payload, V4 presigned, V2 header, V2 presigned, POST form, XML PUT, copy, ranged GET; and six signed requests that do not hash the payload - unsigned payload, presigned, SigV2, chunk-signed - on operations whose body is a buffered XML or policy document) x 16 service configurations x every combination of at most {k} deviations (triples on 2 configurations) out of {n_single} single deviations: 9 methods, 21 paths, 42 queries, 32 interpreted headers x {{absent, empty, garbage, opaque bytes >= 0x80, plausible-but-wrong, duplicated}}, 5 bodies incl. I/O errors, 2 HTTP versions. (a2) {n_chars} character-level deviations: every decoded text the adapter interprets (each query parameter value of each base - the presigned-URL parameters of both signature versions among them -, the key, the copy source, each field of the POST form) with a 2-, 3- and 4-byte character, NUL, '%' and '/' written over and inserted at every byte offset, on 4 configurations. Oracle: no panic, no hang, Ok(response), and for status >= 400 a well-formed <Error> document whose code has that status in data/s3_error_codes.json. (b) every code of the error table + 2 custom codes x 10 messages x 3 request ids x status override x 4 header maps (none, one, three, one with a name attached twice) x {{S3Error::to_http_response, backend error through GetObject, late backend error of the keep-alive operation, and the same error returned by S3Access::check, by S3Auth::get_secret_key and by a custom route's handler}}. Distinct by id."),
+        rule: format!("(a) 19 valid base requests (anonymous GET/HEAD/list, V4 header with unsigned / signed / chunk-signed payload, V4 presigned, V2 header, V2 presigned, POST form, XML PUT, copy, ranged GET; and six signed requests that do not hash the payload - unsigned payload, presigned, SigV2, chunk-signed - on operations whose body is a buffered XML or policy document) x 16 service configurations x every combination of at most {k} deviations (triples on 2 configurations) out of {n_single} single deviations: 9 methods, 21 paths, 42 queries, 32 interpreted headers x {{absent, empty, garbage, opaque bytes >= 0x80, plausible-but-wrong, duplicated}}, 5 bodies incl. I/O errors, 2 HTTP versions. (a2) {n_chars} character-level deviations: every decoded text the adapter interprets (each query parameter value of each base - the presigned-URL parameters of both signature versions among them -, the key, the copy source, each field of the POST form) with a 2-, 3- and 4-byte character, NUL, '%' and '/' written over and inserted at every byte offset, on 4 configurations. (a3) {n_framed} structural mutants of the two framed bodies (POST form, chunk-signed upload): cut at every offset, every byte deleted, every CR LF deleted, every line deleted / doubled, each with the Content-Length as sent and corrected, with and without a provider. Oracle: no panic, no hang, Ok(response), and for status >= 400 a well-formed <Error> document whose code has that status in data/s3_error_codes.json. (b) every code of the error table + 2 custom codes x 10 messages x 3 request ids x status override x 4 header maps (none, one, three, one with a name attached twice) x {{S3Error::to_http_response, backend error through GetObject, late backend error of the keep-alive operation, and the same error returned by S3Access::check, by S3Auth::get_secret_key and by a custom route's handler}}. Distinct by id."),
         exhaustive: true,
-        extra: json!({"single_deviations": n_single, "character_level_deviations": n_chars, "error_codes": ERROR_TABLE.len()}),
+        extra: json!({"single_deviations": n_single, "character_level_deviations": n_chars, "framed_body_mutants": n_framed, "error_codes": ERROR_TABLE.len()}),
         assumptions: vec!["a transport failure after an injected body I/O error is not judged (it is a transport problem, not a request problem)".into(), "requests the http crate itself refuses cannot reach the adapter and are outside the space".into(), "messages do not contain a bare carriage return (XML line-end normalisation is C13's subject)".into()],
     };
     (acc, rep)
